@@ -34,8 +34,8 @@ async def patch_obj(
     """
     as_subresource = 'status' in resource.subresources
     body_patch = dict(patch)  # shallow: for mutation of the top-level keys below.
-    status_patch = body_patch.pop('status', None) if as_subresource else None
-    status_patch = {'status': status_patch} if status_patch is not None else None
+    has_status = as_subresource and 'status' in body_patch  # incl. None, which removes the status.
+    status_patch = {'status': body_patch.pop('status')} if has_status else None
 
     # Patch & reconstruct the actual body as reported by the server. The reconstructed body can be
     # partial or empty -- if the body/status patches are empty. This is fine: it is only used
